@@ -18,4 +18,9 @@ theorem layout_wiring :
 
 theorem drop_zero_wiring : Gen.mc_drop_zero_expr = "np.any(indices != 0, axis=1)" := rfl
 
+/-- further text of the current source that the model takes for granted (glue between library calls: argument lists, output
+allocation, loop bodies) -- a change there is a change of the tie -/
+theorem text_pins_more :
+    Gen.mc_tail = "selector = np.ones(len(indices), dtype=bool) ; if drop_zero: nz = np.any(indices != 0, axis=1) selector *= nz ; peaks = calc_coords(self.zero, self.a, self.b, indices) ; if frame_shape is not None: fy, fx = frame_shape selector *= within_frame(peaks, r, fy, fx) ; return peaks[selector]" := rfl
+
 end C17
